@@ -6,6 +6,7 @@ import DPL.Model.Moments
 import DPL.Proofs.RealCarrier
 import DPL.Proofs.ContinuousCalib
 import Mathlib.Analysis.SpecificLimits.Normed
+import Mathlib.Data.Nat.Choose.Cast
 import Mathlib.Topology.Algebra.InfiniteSum.NatInt
 import Mathlib.Analysis.SpecialFunctions.Pow.Real
 import Mathlib.Tactic.FieldSimp
@@ -95,7 +96,7 @@ theorem hasSum_geom_second_moment (r : ℝ) (h0 : 0 ≤ r) (h1 : r < 1) :
     refine hasSum_of_eq h' (fun n => ?_) (by simp)
     have : (-((n : ℤ) + 1)).natAbs = n + 1 := by omega
     rw [this]; push_cast; ring
-  have := HasSum.of_nat_of_neg_add_one hpos hneg
+  have := HasSum.of_nat_of_neg_add_one (f := fun k : ℤ => (k : ℝ) ^ 2 * (c * r ^ k.natAbs)) hpos hneg
   refine hasSum_of_eq this (fun k => rfl) ?_
   have a : 1 - r ≠ 0 := by linarith
   have b : 1 + r ≠ 0 := by linarith
@@ -115,7 +116,7 @@ theorem hasSum_geom_first_moment (r : ℝ) (h0 : 0 ≤ r) (h1 : r < 1) :
     refine hasSum_of_eq h' (fun n => ?_) (by simp)
     have : (-((n : ℤ) + 1)).natAbs = n + 1 := by omega
     rw [this]; push_cast; ring
-  have := HasSum.of_nat_of_neg_add_one hpos hneg
+  have := HasSum.of_nat_of_neg_add_one (f := fun k : ℤ => (k : ℝ) * (c * r ^ k.natAbs)) hpos hneg
   refine hasSum_of_eq this (fun k => rfl) (by ring)
 
 /-! ### folded Laplace: the overflow-free expression is the old one -/
